@@ -303,6 +303,7 @@ def check_no_integer(rep, F, rule='FIXED-POINT'):
             for callee, args in eff:
                 c = TB._plain(callee)
                 if c.endswith('from_digit_and_lazy_trailing_zeros') and len(args) == 3:
+                    args = N.lazy_ctor_args(F, c, args)
                     d = N.norm(args[1])
                     clo = N.norm(args[2])
                     cap = N.norm(clo[2][0]) if _is(clo, 'closure') and clo[2] else None
